@@ -13,7 +13,7 @@ PROPS = {
     ),
     "C06": dict(
         units=["A1", "A2", "A3", "A4", "A6", "A7"],
-        quick_skip=[r"^a7_.*avx2.*native_grid$"],
+        quick_skip=[r"^a7_.*avx2_divide$", r"^a7_.*native_grid$", r"^a7_f32.*avx2"],
         level="proof",
         level_text="Exact rounding of multiply and faithful, saturating divide are postconditions of the real arithmetic functions, "
                    "discharged by Verus for every 8-bit and every 16-bit (colour, alpha) pair (bit-vector and integer lemmas), the "
@@ -65,7 +65,7 @@ PROPS = {
         level="proof",
         level_text="Positivity, finiteness and full extent in one dimension are postconditions discharged for all sizes 1..65535 and all "
                    "non-NaN centerings (loop-free Kani). The in-bounds, aspect and centering clauses depend on division-times-multiplication "
-                   "rounding that SAT does not settle; they are evaluated on a grid of 20480 concrete (sizes, centering) combinations "
+                   "rounding that SAT does not settle; they are evaluated on a grid of 6480 concrete (sizes, centering) combinations "
                    "(bounded, labelled); the full-range versions run in the thorough tier.",
         level_note="Trusted: Kani/CBMC IEEE-754 f64 model.",
         not_decided=["in-bounds, aspect and centering clauses outside the evaluated grid unless the thorough-tier harnesses finish"],
@@ -172,7 +172,7 @@ PROPS = {
     ),
     "C02": dict(
         units=["A7", "A8", "K5", "K9"],
-        quick_skip=[r"^a8_.*avx2"],
+        quick_skip=[r"^a8_.*avx2", r"^a8_u8x2", r"^a8_f32x4", r"^a7_.*avx2_divide$", r"^a7_.*native_grid$", r"^k9_vertical_(sse4|avx2)_u8_w47", r"^k9_u8x3_avx2_four_rows"],
         level="proof",
         level_text="Scope: the alpha kernels, the precision dispatch and (bounded) the u8 convolution kernels. The SSE4.1 / AVX2 u8 convolution kernels "
                    "(vertical u8 generic, u8x4, u8x3, u8x2 horizontal) are compared byte for byte with the portable kernels on concrete tap tables "
